@@ -445,9 +445,67 @@ def own_anchors_only(ctx):
         ctx.notes.append('broken anchor of another module (not part of C14): ' + u)
 
 
+import re
+HOP = re.compile(rb'@[A-Za-z0-9]([A-Za-z0-9-]*[A-Za-z0-9])?(\.[A-Za-z0-9]([A-Za-z0-9-]*[A-Za-z0-9])?)+')
+
+
+def plainly_malformed_path(x):
+    """True only for a path that no reading of RFC 5321 accepts: a source route that is not a list of @domain hops, or a
+    source route with no mailbox behind it"""
+    if not x.startswith(b'@'):
+        return False
+    if b':' not in x:
+        return True
+    route, mbox = x.split(b':', 1)
+    if any(not HOP.fullmatch(hop) for hop in route.split(b',')):
+        return True
+    return mbox == b'' or b'@' not in mbox
+
+
+def server_paths(ctx):
+    """the commands that hand an address to the parser, through the whole server: what MAIL FROM and RCPT TO accept must
+    be what the functions accept (seeded change c14-m10 stripped a 'source route' in smtp_from() before the parser saw it)"""
+    import session, smtpworld as W
+    b = session.build_qsmtpd(ctx)
+    if not b or not ctx.driver:
+        return
+    rng = ctx.rng
+    paths = [b'', b's@remote.example', b'@relay.example.org:', b'@relay.example.org:s@remote.example', b'@:foo@remote.example',
+             b'@localhost:foo@remote.example', b'@-.-,,@@..:foo@remote.example', b'@a.example,@b.example:s@remote.example',
+             b'@a.example,b.example:s@remote.example', b'@a.example:', b'@a.example,@b.example:', b'@a.example:@', b':s@remote.example',
+             b'@relay.example.org', b'@relay.example.org:s', b's@remote.example:', b'"q d"@remote.example', b'@a.example:"q"@remote.example',
+             b'@@a.example:s@remote.example', b'@a..example:s@remote.example', b'@a.example;s@remote.example']
+    for _ in range(40 if ctx.quick() else 400):
+        paths.append(b''.join(rng.choice([b'@', b':', b',', b'a', b'.', b'example', b'org', b's', b'-']) for _ in range(rng.randrange(1, 9))))
+    fails, dis, scs = [], [], []
+    for x in paths:
+        sc = W.base_scenario()
+        sc.items = [('W',), ('S', b'EHLO client.example\r\n'), ('W',), ('S', b'MAIL FROM:<' + x + b'>\r\n'), ('W',), ('S', b'QUIT\r\n'), ('W',)]
+        scs.append(sc)
+    mouts = vlib.run_batch(ctx.driver, ['addrsyntax 0 %s' % hexs(x + b'>') for x in paths])
+    for x, r, mo in zip(paths, session.run_sessions(ctx, b, scs), mouts):
+        case = 'server MAIL FROM:<%s>' % hexs(x)
+        codes = r.codes()
+        ctx.count('server-mail-from')
+        if r.fault:
+            fails.append((case, 'session', 'fails memory-safety-or-crash: ' + r.fault[:150])); continue
+        if len(codes) < 3:
+            continue
+        acc = codes[2] == '250'
+        macc = mo.split(' ')[0] not in ('0', '-1') and not mo.startswith('fault')
+        if acc != macc:
+            dis.append((case, 'server answers %s' % codes[2], 'model addrsyntax: %s' % mo[:60]))
+        if acc and plainly_malformed_path(x):
+            fails.append((case, 'server answers 250', 'fails accepted-is-wellformed: MAIL FROM accepted a path with a malformed source route or with no mailbox behind the route'))
+    ctx.cov['evaluations'] += len(paths)
+    ctx.cov['traces_validated_against_impl'] += len(paths)
+    vlib.handle_results(ctx, 'server-mail-from', 'model QsmtpModel.Addr.addrsyntax vs MAIL FROM through the whole server', dis, fails)
+
+
 def run(ctx):
     vlib.lean_prepare(ctx, REQUIRED)
     own_anchors_only(ctx)
+    server_paths(ctx)
     h = vlib.build_harness(ctx, 'h_addr')
     if h:
         jobs = gen_cases(ctx)
